@@ -3,6 +3,7 @@ import OjgVerif.JPText.PrecPairsB
 import OjgVerif.JPText.PrecTriplesA
 import OjgVerif.JPText.PrecTriplesB
 import OjgVerif.JPText.PrecTriplesC
+import OjgVerif.JPText.LemmasExpr
 /-! # C14 — JSONPath and script text forms round-trip
 
 Model: `JPText/Print.lean` (the printers), `JPText/Parse.lean` (jp/parse.go), over the regenerated
@@ -72,6 +73,69 @@ theorem descent_bracket_rejected :
     exprPrint false [.root, .descent, .nth 1] = [36, 46, 91, 49, 93] ∧
       parseExpr (exprPrint false [.root, .descent, .nth 1]) = none := by
   decide +kernel
+
+/-! ## keys and string constants: the quoted form round-trips for ALL byte strings -/
+
+/-- For every byte string `s` and whatever text follows: `AppendString(s, '\'')` starts with the quote,
+and `readStr`, having consumed it, returns `sanitize s` (`s` with each byte that is not part of a valid
+UTF-8 sequence replaced by U+FFFD, the known finding `C14-utf8`) and exactly the text that follows.
+Reads `Gen.Jp.jMap` and `Gen.Jp.hex` (256 cells checked by kernel evaluation inside the proof). -/
+theorem quoted_roundtrip (s rest : Bytes) :
+    ∃ t, appendString s 39 ++ rest = 39 :: t ∧ readStr 39 t = some (sanitize s.length s, rest) :=
+  readStr_appendString s rest
+
+/-- … and it is `s` itself when `s` is valid UTF-8 -/
+theorem quoted_roundtrip_valid (s rest : Bytes) (h : utf8Ok s = true) :
+    ∃ t, appendString s 39 ++ rest = 39 :: t ∧ readStr 39 t = some (s, rest) :=
+  readStr_appendString_valid s rest h
+
+/-- not vacuous, and the excluded class is real: `"\xff"` is written `'\ufffd'` -/
+example : utf8Ok [97, 0xC3, 0xA9, 39, 92, 10] = true ∧ utf8Ok [0xFF] = false ∧
+    appendString [0xFF] 39 = [39, 92, 117, 102, 102, 102, 100, 39] := by decide +kernel
+
+/-! ## indexes: decimal text round-trips for every int64 -/
+
+/-- `readInt` (Go wrap-around arithmetic) reads `strconv.FormatInt(i, 10)` back as `i`, for every
+int64 `i` and every non-digit follower `c`, which it consumes and returns -/
+theorem int_roundtrip (i : Int) (hi : inInt64 i = true) (c : UInt8) (rest : Bytes) (hc : isDigit c = false) :
+    ∃ d ds, fmtInt i = d :: ds ∧ (d = 45 ∨ isDigit d = true) ∧ readInt d (ds ++ c :: rest) = some (i, c, rest) :=
+  readInt_fmtInt i hi c rest hc
+
+/-- `Nth.Append` is `FormatInt` between brackets except at the least integer (`C14-nth-minint`) -/
+theorem nth_text (i : Int) (hi : inInt64 i = true) (hm : i ≠ minInt) : nthPrint i = 91 :: (fmtInt i ++ [93]) :=
+  nthPrint_eq i hi hm
+
+theorem nth_minint_garbage : nthPrint minInt =
+    [91, 45, 39, 46, 46, 45, 45, 41, 46, 48, 45, 42, 40, 43, 44, 41, 41, 43, 40, 48, 40, 93] := by decide +kernel
+
+/-! ## expressions without filter fragments: the partial form of C14, both text forms -/
+
+/-- **C14, expressions, partial.** For every constructible expression `x` (`Frag.okL`) that has no
+filter fragment and for which `Spec.lean` names no deviation in the text form `br` (`devsExpr br x = []`:
+Root/At only in first position, a Descent only in dot form before a token child, a wildcard or the end,
+unions of two or more members without quote/backslash, no `Nth(MinInt64)`, quoted keys valid UTF-8):
+the printed text is accepted, the re-parsed expression prints identically, and it equals `x` up to the
+normal form (evaluates identically). Root, At, children with ANY key bytes (dot or quoted form chosen by
+the regenerated `tokenMap`), indexes, wildcards, descents, unions, slices of every shape. -/
+theorem expr_roundtrip_partial (br : Bool) (x : Expr) (hok : Frag.okL x = true) (hnf : noFilter x = true)
+    (hdev : devsExpr br x = []) :
+    ∃ y, parseExpr (exprPrint br x) = some y ∧ exprPrint br y = exprPrint br x ∧ sameExpr y x = true := by
+  have hc := cleanExpr_of_spec br x hok hnf hdev
+  refine ⟨imgL br x, parseExpr_print br x hc, exprPrint_imgL br x hc, ?_⟩
+  simp [sameExpr, imgL_normL]
+
+theorem expr_roundtrip_bool (br : Bool) (x : Expr) (hok : Frag.okL x = true) (hnf : noFilter x = true)
+    (hdev : devsExpr br x = []) : roundTripsExpr br x = true :=
+  roundTripsExpr_clean br x (cleanExpr_of_spec br x hok hnf hdev)
+
+/-- the hypotheses hold for `$.a['b c'][3]..*[1:5:2]['x',-1]` (dot form) and `$['a'][*]` (bracket form) -/
+example : Frag.okL [.root, .child [97], .child [98, 32, 99], .nth 3, .descent, .wild false, .slice [1, 5, 2],
+      .union [.key [120], .idx (-1)]] = true ∧
+    noFilter [.root, .child [97], .child [98, 32, 99], .nth 3, .descent, .wild false, .slice [1, 5, 2],
+      .union [.key [120], .idx (-1)]] = true ∧
+    devsExpr false [.root, .child [97], .child [98, 32, 99], .nth 3, .descent, .wild false, .slice [1, 5, 2],
+      .union [.key [120], .idx (-1)]] = [] ∧
+    devsExpr true [.root, .child [97], .wild false] = [] := by decide +kernel
 
 /-! ## evaluation order: every pair and triple of operators, every nesting shape
 
